@@ -123,6 +123,32 @@ def _perform_dead_code_elimination(self):
 '''
 
 
+_SRC_SUB = '''
+def _optimize_sub(self):
+    a, b = self.inputs
+    if isinstance(b, UnaryOpUGen) and b.operator == 'neg' and len(b._descendants) == 1:
+        self._synthdef._remove_ugen(b)
+        replacement = BinaryOpUGen.new('+', a, b.inputs[0])
+        replacement._descendants = self._descendants
+        self._optimize_update_descendants(replacement, b)
+        self._synthdef._replace_ugen(self, replacement)
+        replacement._optimize_graph()
+'''
+_SRC_SUB_GUARD = '''
+def _optimize_sub(self):
+    a, b = self.inputs
+    if a is b:
+        return None
+    if isinstance(b, UnaryOpUGen) and b.operator == 'neg' and len(b._descendants) == 1:
+        self._synthdef._remove_ugen(b)
+        replacement = BinaryOpUGen.new('+', a, b.inputs[0])
+        replacement._descendants = self._descendants
+        self._optimize_update_descendants(replacement, b)
+        self._synthdef._replace_ugen(self, replacement)
+        replacement._optimize_graph()
+'''
+
+
 def _fn(src):
     return _dump(ast.parse(src).body[0])
 
@@ -177,6 +203,19 @@ def gen_opcodes(repo, gendir):
             modes[0], 'true' if modes[0] == 'remove' else 'false'))
         out.append('(* `if self._synthdef._children[input._synth_index] is input:` guards input._optimize_graph() *)\n'
                    'Definition dce_guard : bool := %s.\n' % ('true' if shape == _fn(_SRC_DCE_GUARD) else 'false'))
+        fd = None
+        for n in tree.body:
+            if isinstance(n, ast.ClassDef) and n.name == 'BinaryOpUGen':
+                for m in n.body:
+                    if isinstance(m, ast.FunctionDef) and m.name == '_optimize_sub':
+                        fd = m
+        if fd is None:
+            raise Refused('BinaryOpUGen._optimize_sub not found')
+        shape = _dump(_strip_doc(fd))
+        if shape not in (_fn(_SRC_SUB), _fn(_SRC_SUB_GUARD)):
+            raise Refused('_optimize_sub is not the method the model transcribes')
+        out.append('(* `if a is b: return None` at the start of _optimize_sub *)\n'
+                   'Definition sub_guard : bool := %s.\n' % ('true' if shape == _fn(_SRC_SUB_GUARD) else 'false'))
     except (Refused, SyntaxError, OSError) as e:
         errors.append({'target': 'Gen_opcodes', 'error': 'dead code elimination: %s' % e})
     _write(os.path.join(gendir, 'Gen_opcodes.v'), '\n'.join(out))
